@@ -4,7 +4,7 @@
    about graph structure (blank-node inlining, lists, RDF/XML, JSON-LD, HexTuples, prefixes, numeric
    shorthand) is conformance testing in harness/c03.py and has no theorem here.
    Proofs are in Codec/Proofs.v. *)
-From RV Require Import Codec.Model Codec.Proofs Codec.TurtleProofs Codec.Hext Codec.TurtleList.
+From RV Require Import Codec.Model Codec.Proofs Codec.TurtleProofs Codec.Hext Codec.TurtleList Codec.TurtleStmt Codec.TurtleStmtProofs.
 
 (* K1. The four chained str.replace calls of nt._quote_encode are one pass over the characters. *)
 Theorem C03_nt_quote_one_pass : forall s, nt_encode_body s = flat_map nt_esc1 s.
@@ -189,6 +189,32 @@ Print Assumptions C03_turtle_doList_historical_partial.
 Theorem C03_tl_spec_model : forall c, tl_spec c (tl_model c) = true.
 Proof. exact tl_spec_model. Qed.
 Print Assumptions C03_tl_spec_model.
+
+(* K4, statement layer: the Turtle text TurtleSerializer writes for a graph WITHOUT blank nodes (header of @prefix
+   lines, one statement per subject with ; and , lists, a for rdf:type, () for rdf:nil, prefixed names or <iri>,
+   literals quoted by Literal._quote_encode with @lang / ^^datatype, bare xsd:integer and xsd:boolean) and a reader for
+   exactly that sub-language.  The grouping/ordering (plan) and the prefixed-name decisions (q, with the prefix table
+   ns) are inputs: the theorem holds for EVERY plan, EVERY prefix table and EVERY prefixed-name decision that is
+   consistent with the table (prefix declared, namespace ++ local = IRI, prefix and local free of blanks, commas and -
+   for the prefix - colons).  The lexer finds exactly the writer's tokens ... *)
+Theorem C03_turtle_stmt_lexing : forall ns q pl, ns_ok ns = true -> q_ok ns q = true -> plan_ok pl = true ->
+  lexs 0 (write_doc ns q pl) = toks_doc ns q pl.
+Proof. exact lex_doc. Qed.
+Print Assumptions C03_turtle_stmt_lexing.
+
+(* ... and reading the text gives back the triples of the plan, in order: nothing lost, added or retyped. *)
+Theorem C03_turtle_stmt_roundtrip : forall ns q pl, ns_ok ns = true -> q_ok ns q = true -> plan_ok pl = true ->
+  read_doc (write_doc ns q pl) = Some (plan_triples pl).
+Proof. exact read_write_doc. Qed.
+Print Assumptions C03_turtle_stmt_roundtrip.
+
+(* what the ttl_stmt suite checks of rdflib's text and of rdflib's parse of it holds of the model whenever the plan
+   the serialiser computed covers the graph (that part - orderSubjects, buildPredicateHash, sortProperties - is
+   checked on every case, not proved: _partial) *)
+Theorem C03_ts_spec_model_partial : forall c, ts_wf c = true ->
+  tset_eqb (plan_triples (ts_plan c)) (ts_g c) = true -> ts_spec c (ts_model c) = true.
+Proof. exact ts_spec_model. Qed.
+Print Assumptions C03_ts_spec_model_partial.
 
 (* graph-level suite: no model; the checker only says "the round trip was fine" *)
 Theorem C03_rt_spec_model : forall c, rt_kf c = 0 -> rt_spec c (rt_model c) = true.
